@@ -157,6 +157,10 @@ def make_deque(sched):
             collections.deque.append(self, x)
 
         def popleft(self):
+            if not self:
+                # nothing to take: no effect on shared state, so no scheduling point (code that tests len() first and code that
+                # catches IndexError look the same to the model)
+                return collections.deque.popleft(self)
             sched.yield_point('popleft', None)
             return collections.deque.popleft(self)
     return InstrDeque
